@@ -163,6 +163,34 @@ def bounded_status(pid, tier, seed, ops=None):
             for clause, detail in probs:
                 oid = "%s.B.status.%s.%s" % (pid, shape, clause)
                 violations.setdefault(oid, ({"op": op, "reply": raw.decode("latin-1")}, detail))
+    # silence: the server never answers (recv times out) or answers only part of a line -- the operation must end with Error
+    # within a bounded time, it must not wait for ever or report a result
+    import signal
+
+    class _Stuck(Exception):
+        pass
+
+    def _alarm(signum, frame):
+        raise _Stuck()
+
+    for op in (ops or OPS):
+        for partial in (b"", b"OK", b'NO "unfinished', b"{5}\r\nab"):
+            evals += 1
+            shapes.add((op, "silence", partial))
+            sock = CannedSocket([partial])
+            c = client_on(sock)
+            old = signal.signal(signal.SIGALRM, _alarm)
+            signal.setitimer(signal.ITIMER_REAL, 3)
+            try:
+                kind, val = run_op(c, op)
+            except _Stuck:
+                kind, val = "stuck", "no result within 3 s"
+            finally:
+                signal.setitimer(signal.ITIMER_REAL, 0)
+                signal.signal(signal.SIGALRM, old)
+            if kind != "Error":
+                oid = "%s.B.status.silence.ends-with-Error" % pid
+                violations.setdefault(oid, ({"op": op, "reply": partial.decode("latin-1") + "<then nothing>"}, "%s -> %s %r" % (op, kind, val)))
     # two failing operations in a row on ONE client: the second reply's code/text must replace the first's
     good = [(b'NO (QUOTA) "first"\r\n', b"QUOTA", b"first"), (b'NO "second"\r\n', b"", b"second"),
             (b'NO (QUOTA/MAXSIZE) "third"\r\n', b"QUOTA/MAXSIZE", b"third"), (b"NO\r\n", b"", b""), (b'NO {6}\r\nfourth\r\n', b"", b"fourth")]
